@@ -81,18 +81,33 @@ def safe_sites(fn_rec):
             visit(e["iter"], loops)
             visit(e["body"], new)
             return
+        if k == "mcall" and e["m"] in ("windows", "chunks_exact") and len(e["args"]) == 1 and (_lit(e["args"][0]) or 0) >= 1:
+            ok.add((e.get("ln"), "windows"))          # a literal, non-zero window size never panics
+        if k == "mcall" and e["m"] in ("all", "any", "for_each", "map", "position", "find", "filter") and len(e["args"]) == 1 and _strip(e["args"][0]).get("k") == "closure":
+            rc = _strip(e["recv"])
+            cl = _strip(e["args"][0])
+            if rc.get("k") == "mcall" and rc["m"] in ("windows", "chunks_exact") and len(rc["args"]) == 1 and (_lit(rc["args"][0]) or 0) >= 1 and cl["params"] and \
+                    cl["params"][0].get("k") == "bind":
+                # the closure's parameter is a window of exactly K elements: `w[c]` with a literal c < K is in bounds
+                visit(e["recv"], loops)
+                visit(cl["body"], loops + [("window", cl["params"][0]["id"], _lit(rc["args"][0]))])
+                return
         if k == "index":
             idx = e["i"]
             cont = _container_key(e["e"])
             verdict = False
-            for var, a, c_key, d in loops:
+            for lp in loops:
+                if lp[0] == "window" and cont == ("local", lp[1]) and _lit(idx) is not None and 0 <= _lit(idx) < lp[2]:
+                    verdict = True
+            loops_ = [lp for lp in loops if lp[0] != "window"]
+            for var, a, c_key, d in loops_:
                 c = _affine(idx, var)
                 if c is not None and cont is not None and cont == c_key and a + c >= 0 and d + c <= 0:
                     verdict = True
             (ok if verdict else bad).add((e.get("ln"), "index"))
         if k == "bin" and e.get("op") in ("Add", "Sub") and (e.get("ty") or "").replace("&", "") == "usize":
             verdict = False
-            for var, a, c_key, d in loops:
+            for var, a, c_key, d in [lp for lp in loops if lp[0] != "window"]:
                 l, r = _affine(e["l"], var), _lit(e["r"])
                 if l is not None and r is not None:
                     verdict = (a + l >= r) if e["op"] == "Sub" else True
@@ -112,4 +127,6 @@ def kind_class(kind):
         return "sub"
     if kind == "assert:Overflow(Add)":
         return "add"
+    if kind in ("ext:slice::windows", "ext:slice::chunks_exact"):
+        return "windows"
     return None
